@@ -270,7 +270,7 @@ func run(c *core.Ctx) {
 	}
 	c.SetExhaustive("all pairs of selector atoms")
 	r := c.Rng("soup")
-	n := c.N(150000, 5000000) / c.NShards
+	n := c.N(600000, 10000000) / c.NShards
 	for i := 0; i < n; i++ {
 		var s string
 		switch r.Intn(6) {
